@@ -323,6 +323,21 @@ impl ExTracker {
             );
         }
 
+        // ---- the book holds only orders that an earlier tick reported as admitted (C01, C03) ----------
+        if ctx.wants("C01") || ctx.wants("C03") {
+            let unknown: Vec<Option<u64>> = pre
+                .book
+                .iter()
+                .filter(|o| o.order_id.and_then(|id| self.by_id.get(&id)).map_or(true, |i| self.recs[*i].status == St::Buffered))
+                .map(|o| o.order_id)
+                .take(5)
+                .collect();
+            if !unknown.is_empty() {
+                ctx.fail("C01", "in-book-before-admission", "tick", format!("when the tick began the book already held orders no earlier tick reported as admitted (ids {:?}, {} submitted and waiting): they can fill on the tick that admits them", unknown, self.buffered.len()));
+                ctx.fail("C03", "in-book-before-admission", "tick", format!("when the tick began the book already held orders no earlier tick reported as admitted (ids {:?})", unknown));
+            }
+        }
+
         // ==== A. expected fills by the property's table over the SUT's own pre-tick book ==========
         let mut expected: Vec<(Option<u64>, Trade)> = Vec::new();
         for o in &pre.book {
